@@ -29,7 +29,14 @@ def prepare_crate(crate_dir):
         # crates with extra dependencies keep their own lock file
         return
     if os.path.exists(src):
-        shutil.copyfile(src, dst)
+        # (rewritten only when it differs: the K and S legs run side by side and the S crate
+        # depends on the K crate's directory)
+        try:
+            same = open(src, 'rb').read() == open(dst, 'rb').read()
+        except OSError:
+            same = False
+        if not same:
+            shutil.copyfile(src, dst)
 
 
 def parse_harness_output(out):
